@@ -51,6 +51,12 @@ Definition relerr_ok (eps tolsq : Qc) (X : dense Qc) (T : ttensor Qc) : bool :=
 
 Definition ranks_are (T : ttensor Qc) (ranks : list nat) : bool :=
   nvec_eqb (map (fun U => ncols U) (tfactors T)) ranks && nvec_eqb (dshape (tcore T)) ranks.
+(* mixed request: entries > 0 are met exactly, entries = 0 (automatic) give between 1 and the core size columns *)
+Definition ranks_given (T : ttensor Qc) (ranks : list nat) : bool :=
+  let got := map (fun U => ncols U) (tfactors T) in
+  Nat.eqb (length got) (length ranks) && nvec_eqb (dshape (tcore T)) got &&
+  forallb (fun p => match snd p with O => Nat.leb 1 (fst p) | r => Nat.eqb (fst p) r end) (combine got ranks).
+
 (* eigen certificate for a symmetric matrix G (n x n): W orthonormal, G W = W diag(mu) within eps*scale, mu descending *)
 Fixpoint qdesc (l : list Qc) : bool :=
   match l with x :: ((y :: _) as r) => qleb y x && qdesc r | _ => true end.
